@@ -545,36 +545,6 @@ def reset (s : St) : St := { s with rc := [] }
 
 def gcSt (s : St) (g : Nat) : St := { s with store := gc g s.store, gcAt := max s.gcAt g }
 
-/-! ### histories -/
-
-inductive Op where
-  | block (idx : Nat) (ops : List SubOp)   -- a committed block
-  | blockL (idx : Nat) (ops : List SubOp) (ld : List (List Bytes))
-                                           -- a committed block on a partly loaded trie: `ld[i]` = the
-                                           -- hashes resolved from the store before the block's i-th event
-  | gc (g : Nat)                           -- `Module.GC(g, store)`
-  | reset                                  -- restart / Collapse
-
-def stepOp (H : Bytes → Bytes) (s : St) : Op → Option St
-  | .block idx ops => commit H s idx ops
-  | .blockL idx ops ld => commitL H s idx ops ld
-  | .gc g => some (gcSt s g)
-  | .reset => some (reset s)
-
-def runOps (H : Bytes → Bytes) : St → List Op → Option St
-  | s, [] => some s
-  | s, o :: r =>
-    match stepOp H s o with
-    | none => none
-    | some s' => runOps H s' r
-
-/-- block heights strictly increase (`top` = the last committed height, if any). -/
-def Heights : Option Nat → List Op → Prop
-  | _, [] => True
-  | top, .block idx _ :: r => (∀ h, top = some h → h < idx) ∧ Heights (some idx) r
-  | top, .blockL idx _ _ :: r => (∀ h, top = some h → h < idx) ∧ Heights (some idx) r
-  | top, _ :: r => Heights top r
-
 /-! ### state-sync restore (billet.go) -/
 
 /-- all positions of the unfolded trie, parents first: the (node, path) pairs the MPT pool hands to
@@ -600,6 +570,48 @@ def incrRef (H : Bytes → Bytes) (mode : Mode) (s : Store) (n : Node) : Store :
 /-- restoring a whole trie into the store. -/
 def restoreAll (H : Bytes → Bytes) (mode : Mode) (s : Store) (t : Node) : Store :=
   (positions t).foldl (incrRef H mode) s
+
+/-- stateroot/module.go:225-237 `JumpToState` after a state sync (statesync module: `CleanStorage`
+at genesis, every node of the sync point's trie handed to `Billet.RestoreHashNode`): the node store
+holds exactly the restored trie, the live trie is `NewTrie(NewHashNode(sr.Root), s.mode, s.Store)` —
+the restored trie, in the module's OWN mode, with a fresh (empty) refcount map —, the local root
+record is the sync point's. The states of earlier heights are gone with the storage. -/
+def jumpSt (H : Bytes → Bytes) (s : St) (idx : Nat) (t : Node) : St :=
+  { s with root := t, rc := [], store := restoreAll H s.mode [] t,
+           roots := [(idx, rootHash H t)], hist := [(idx, t)] }
+
+/-! ### histories -/
+
+inductive Op where
+  | block (idx : Nat) (ops : List SubOp)   -- a committed block
+  | blockL (idx : Nat) (ops : List SubOp) (ld : List (List Bytes))
+                                           -- a committed block on a partly loaded trie: `ld[i]` = the
+                                           -- hashes resolved from the store before the block's i-th event
+  | gc (g : Nat)                           -- `Module.GC(g, store)`
+  | reset                                  -- restart / Collapse
+  | jump (idx : Nat) (t : Node)            -- state sync to the trie `t` of height `idx` + `JumpToState`
+
+def stepOp (H : Bytes → Bytes) (s : St) : Op → Option St
+  | .block idx ops => commit H s idx ops
+  | .blockL idx ops ld => commitL H s idx ops ld
+  | .gc g => some (gcSt s g)
+  | .reset => some (reset s)
+  | .jump idx t => some (jumpSt H s idx t)
+
+def runOps (H : Bytes → Bytes) : St → List Op → Option St
+  | s, [] => some s
+  | s, o :: r =>
+    match stepOp H s o with
+    | none => none
+    | some s' => runOps H s' r
+
+/-- block heights strictly increase (`top` = the last committed height, if any). -/
+def Heights : Option Nat → List Op → Prop
+  | _, [] => True
+  | top, .block idx _ :: r => (∀ h, top = some h → h < idx) ∧ Heights (some idx) r
+  | top, .blockL idx _ _ :: r => (∀ h, top = some h → h < idx) ∧ Heights (some idx) r
+  | _, .jump idx _ :: r => Heights (some idx) r
+  | top, _ :: r => Heights top r
 
 /-! ### reading a root through the store (module.go:76-81 GetState: mode without the GC flag) -/
 
